@@ -3,8 +3,9 @@
    Model: Model/ConnUpdates.v (connector_updates.go after fixes C08-fix-3 / C06-fix-2 / C06-fix-3); lemmas: Proofs/ConnUpdatesProofs.v.
    Runtime part outside the model (labelled partial, exercised by harness/cmd/c06): the goroutine that takes updates from
    the channel, the one-shot waiter channel (Done called exactly once, value + close), timing. *)
-From Coq Require Import List NArith Bool.
+From Coq Require Import List NArith Bool PeanoNat.
 From Gluon Require Import Model.ConnUpdates Proofs.ConnUpdatesProofs Gen.FactsConnUpdates.
+From Gluon Require Import Model.CrashSteps Proofs.ChunkTuples.
 Import ListNotations.
 Open Scope N_scope.
 
@@ -85,8 +86,8 @@ Print Assumptions C06_mailbox_created_effect.
    (a change of letter case is a rename) and applyMessageMailboxesUpdated queues the membership updates before the flag
    updates, applyMailboxCreated stores FLAGS, PERMANENTFLAGS and attributes of the update each in its place *)
 Theorem C06_source_facts : mailbox_rename_compares_exactly = true /\ mailbox_updates_before_flag_updates = true /\
-  mailbox_created_passes_three_sets = true /\ created_size_is_stored_size = true.
-Proof. exact (conj eq_refl (conj eq_refl (conj eq_refl eq_refl))). Qed.
+  mailbox_created_passes_three_sets = true /\ created_size_is_stored_size = true /\ recovery_mailbox_guards_first = true.
+Proof. exact (conj eq_refl (conj eq_refl (conj eq_refl (conj eq_refl eq_refl)))). Qed.
 Print Assumptions C06_source_facts.
 
 (* a MailboxUpdated whose canonical name differs from the stored one in any way — letter case included — renames the
@@ -160,6 +161,58 @@ Theorem C06_message_id_changed_effect : forall s e iid rid m, cu_find_ms_id s ii
     (forall x, In x (st_me s) -> me_ms x <> iid -> In x (st_me s1)).
 Proof. exact message_id_changed_effect. Qed.
 Print Assumptions C06_message_id_changed_effect.
+
+(* ---- the protected mailbox ---- *)
+(* an update that names the recovery mailbox — MailboxCreated / MailboxDeleted / MailboxUpdated by its remote id,
+   MailboxIDChanged by its INTERNAL id — is acknowledged with an error and changes nothing (the guards are the first
+   statement of the four functions: recovery_mailbox_guards_first in C06_source_facts) *)
+Theorem C06_update_aimed_at_recovery_mailbox_is_refused : forall s e u,
+  cu_aimed_at_recovery s u = true -> cu_apply s e u = (s, AErr, []).
+Proof. exact aimed_at_recovery_refused. Qed.
+Print Assumptions C06_update_aimed_at_recovery_mailbox_is_refused.
+
+(* no update on the mailbox table — whatever it names, valid or not, acknowledged or refused — removes, renames or
+   re-labels the recovery mailbox: its entry is in the table afterwards exactly as before *)
+Theorem C06_recovery_mailbox_survives_every_mailbox_update : forall s e u s' a sus m, cu_wf s ->
+  cu_mailbox_kind u = true -> In m (st_mb s) -> mb_rid m = cu_recovery_rid -> cu_apply s e u = (s', a, sus) ->
+  In m (st_mb s').
+Proof. exact recovery_mailbox_kept. Qed.
+Print Assumptions C06_recovery_mailbox_survives_every_mailbox_update.
+
+(* ---- the flags of a MessagesCreated batch: a flat list of (message, flag) pairs cut into chunks ---- *)
+(* cutting a flat list of k-tuples into chunks of n values is cutting the list of tuples into chunks of n/k tuples —
+   every statement gets whole rows — when k divides n *)
+Theorem C06_chunks_keep_tuples : forall (A : Type) k, (0 < k)%nat -> forall n (rows : list (list A)), (0 < n)%nat ->
+  Nat.divide k n -> Forall (fun r => length r = k) rows ->
+  cs_chunks n (concat rows) = cs_row_chunks k n rows.
+Proof. exact (@chunks_keep_tuples). Qed.
+Print Assumptions C06_chunks_keep_tuples.
+
+(* and only then: every chunk of every such list holds a whole number of tuples iff k divides n (when it does not, the
+   first chunk of any list with more than n values ends inside a tuple — the statement has a value too many) *)
+Theorem C06_chunks_keep_tuples_iff : forall (A : Type) k, (0 < k)%nat -> forall n (x : A), (0 < n)%nat ->
+  (forall rows : list (list A), Forall (fun r => length r = k) rows ->
+     Forall (fun c => Nat.divide k (length c)) (cs_chunks n (concat rows)))
+  <-> Nat.divide k n.
+Proof. exact (@chunks_keep_tuples_iff). Qed.
+Print Assumptions C06_chunks_keep_tuples_iff.
+
+(* T1: db.ChunkLimit and the flat chunk loops of the SQLite layer as the translator finds them on every run (the flag
+   pairs of writeOps.CreateMessages): every group has as many question marks as the divisor of len(chunk)/K says and K
+   divides the chunk size; every such loop was understood and there is at least one *)
+Theorem C06_chunk_limit_fits_flat_groups :
+  cs_flat_groups_ok flat_chunk_groups = true /\ flat_chunk_loops_not_understood = 0 /\ (0 <? N.of_nat (length flat_chunk_groups)) = true /\
+  (0 <? conn_chunk_limit) = true.
+Proof. exact (conj eq_refl (conj eq_refl (conj eq_refl eq_refl))). Qed.
+Print Assumptions C06_chunk_limit_fits_flat_groups.
+
+(* hence, for every flat chunk loop FOUND IN THE SOURCE, rows of its group size stay whole in every chunk, for every
+   number of rows (does not type-check when db.ChunkLimit is not a multiple of a group size) *)
+Theorem C06_source_flat_chunks_keep_rows : forall (A : Type) q k n (rows : list (list A)),
+  In (q, k, n) flat_chunk_groups -> 0 < n -> Forall (fun r => length r = N.to_nat k) rows ->
+  cs_chunks (N.to_nat n) (concat rows) = cs_row_chunks (N.to_nat k) (N.to_nat n) rows.
+Proof. exact (flat_groups_keep_rows flat_chunk_groups eq_refl). Qed.
+Print Assumptions C06_source_flat_chunks_keep_rows.
 
 (* ---- non-vacuity ---- *)
 (* INBOX (remote id 1), a mailbox "3" (remote id 5), the recovery mailbox; message 1 in both, message 2 in one *)
